@@ -144,7 +144,12 @@ def type_of(v):
 def num_to_str(x):
     if x == int(x) and abs(x) < 1e17:
         return str(int(x)) if x != 0 or math.copysign(1, x) > 0 else "-0"
-    r = repr(x)
+    # the implementation writes the shortest round-trip digits in positional notation, never with an exponent
+    # (the notation is not part of the specification; the digits are C06's subject)
+    from decimal import Decimal
+    r = format(Decimal(repr(x)), "f")
+    if "." in r:
+        r = r.rstrip("0").rstrip(".")
     return r
 
 
